@@ -470,8 +470,22 @@ def _r4(ctx, rep, eff):
             # `limit = min(limit, x)`: the chunk size can only get smaller than the exchange's limit
             return isinstance(v, ast.Call) and call_name(v) == "min" and isinstance(v.func, ast.Name) and \
                 any(utext(a) == lim for a in v.args)
+        from sa.kinds import guard_pairs, holds
+
+        def lowering_stores():
+            # `if x < limit: limit = x`: the same thing as `limit = min(limit, x)`, written as a guarded store
+            out = set()
+            for n in cfg.live_nodes():
+                for e in n.exprs:
+                    if isinstance(e, ast.Assign) and utext(e.targets[0]) == lim:
+                        gs = guard_pairs(cfg, n.id)
+                        v = utext(e.value)
+                        if holds(gs, "%s < %s" % (v, lim)) or holds(gs, "%s <= %s" % (v, lim)):
+                            out.add(id(e))
+            return out
+        lowering = lowering_stores() if lim else set()
         for s in walk_nodes(f.node.body, ast.Assign):
-            if utext(s.targets[0]) == lim and not lowers_only(s.value):
+            if utext(s.targets[0]) == lim and not lowers_only(s.value) and id(s) not in lowering:
                 src = s.value
         flow = (isinstance(src, ast.Call) and call_name(src) == "order_limit"
                 and len(src.args) == 1 and utext(src.args[0]) == ptype_p)
@@ -482,7 +496,7 @@ def _r4(ctx, rep, eff):
                   "chunk size expression: %s" % (utext(src) if src is not None else lim))
         nrebind = [s for s in walk_nodes(f.node.body, (ast.Assign, ast.AugAssign))
                    if any(utext(t) == lim for t in (s.targets if isinstance(s, ast.Assign) else [s.target]))
-                   and not (isinstance(s, ast.Assign) and lowers_only(s.value))]
+                   and not (isinstance(s, ast.Assign) and (lowers_only(s.value) or id(s) in lowering))]
         rep.check(len(nrebind) <= 1, "R4c", key(f, None, "chunk size not rebound"), f)
     rep.check(good, "R4c", key(f, None, "one package per (version, chunk) with that version and type"), f, c, detail)
     # clear on every normal exit, parameter not rebound, no reordering
